@@ -316,6 +316,8 @@ def main(argv=None):
         print(f"INCONCLUSIVE job={n}: {inc}")
     for n, w in missing_witness:
         print(f"VACUITY job={n}: witness '{w}' not reached")
+    for dsg in disagreements[:3]:
+        print(f"VALIDATION-DISAGREEMENT job={dsg['job']} failed={dsg['failed']} model={json.dumps(dsg['model'], default=str)[:600]}")
     for n, lab, rp in nonrepro:
         print(f"NON-REPRODUCING job={n} obligation={lab}: {rp}")
 
